@@ -28,6 +28,7 @@ func genC06Case(t *rapid.T) SSOCase {
 		c.Headers = [][2]string{{"Forwarded", "for=192.0.2.60;host=" + rapid.SampledFrom([]string{"public.idp.example", "\"proxy.example:444\""}).Draw(t, "fwdhost") + ";proto=http"}}
 	}
 	host := effHost(c)
+	c.Prelude = genPrelude(t, spec, host)
 	c.SP = rapid.IntRange(0, len(spec.SPs)-1).Draw(t, "sp")
 	c.Req = genValidAuthn(t, spec, c.SP, host)
 	c.Style = genXMLStyle(t)
@@ -41,6 +42,12 @@ func genC06Case(t *rapid.T) SSOCase {
 			if (d.Name == "bad-deflate" || d.Name == "sigalg-without-signature") && c.Tr.Binding != "redirect" {
 				c.Tr.Binding = "redirect"
 			}
+			c.Defects = append(c.Defects, d)
+			applyModelDefect(&c, d, host)
+		}
+	case "valid":
+		if len(c.Prelude) > 0 && c.Spec.IdP.Endpoint("sso").URL == "" {
+			d := Defect{Name: "dest-of-other-tenant", Param: c.Prelude[0]}
 			c.Defects = append(c.Defects, d)
 			applyModelDefect(&c, d, host)
 		}
@@ -103,7 +110,7 @@ func TestC06(t *testing.T) {
 		nd := len(c.Defects)
 		decodable := r.Sent.Doc != nil
 		nontrivial := (nd >= 1 && nd <= 2 && !c.hasDefect("mutate")) || (c.hasDefect("mutate") && decodable)
-		classes := []string{fmt.Sprintf("accepted=%v", accepted), fmt.Sprintf("lenient-sp-lookup=%v", c.Spec.LenientLookup), "issuer/" + c.Spec.IdP.IssuerMode, "binding/" + c.Tr.Binding}
+		classes := []string{fmt.Sprintf("accepted=%v", accepted), fmt.Sprintf("prelude=%d", len(c.Prelude)), fmt.Sprintf("lenient-sp-lookup=%v", c.Spec.LenientLookup), "issuer/" + c.Spec.IdP.IssuerMode, "binding/" + c.Tr.Binding}
 		for _, d := range c.Defects {
 			classes = append(classes, "defect/"+d.Name)
 		}
